@@ -531,3 +531,310 @@ func phiWeb(v ssa.Value, ph *ssa.Phi) bool {
 	}
 	return walk(v)
 }
+
+func init() {
+	doc := "The slot bookkeeping of checkBackendPair: old endpoints are partitioned by Enabled (enabled ones are keyed by target, the others are the free slots); a new endpoint whose target exists keeps that server (and its name), the others are `added`; a vanished target is refilled from `added` when one is left, else disabled and its slot becomes free; every added endpoint takes the name of the free slot it is sent to; the unused free slots are carried to the new backend with their names."
+	addRule("C02", &core.Rule{ID: "C02.slot-mapping", Floor: 12, Run: slotMapping, Doc: doc})
+	addRule("C11", &core.Rule{ID: "C11.slot-mapping", Floor: 12, Run: slotMapping, Doc: doc})
+}
+
+// appendsTo lists append calls that extend the source variable `name` (the first argument is, or flows from, a phi of that variable).
+func appendsTo(fn *ssa.Function, name string) []*ssa.Call {
+	var out []*ssa.Call
+	for _, s := range core.Calls(fn, false) {
+		if core.CalleeName(s.Common()) != "builtin:append" {
+			continue
+		}
+		call, ok := s.Instr.(*ssa.Call)
+		if !ok {
+			continue
+		}
+		isVar := false
+		if ph, ok := call.Call.Args[0].(*ssa.Phi); ok && ph.Comment == name {
+			isVar = true
+		}
+		for _, r := range *call.Referrers() {
+			if ph, ok := r.(*ssa.Phi); ok && ph.Comment == name {
+				isVar = true
+			}
+		}
+		if isVar {
+			out = append(out, call)
+		}
+	}
+	return out
+}
+
+func slotMapping(c *core.Ctx) {
+	fn := c.Fn("haproxy", "dynUpdater.checkBackendPair")
+	if fn == nil {
+		return
+	}
+	enabled := func(k string) bool { return strings.HasSuffix(k, ".Enabled") && strings.Contains(k, "old.Endpoints[") }
+	found := func(k string) bool { return strings.HasSuffix(k, ",ok#1") }
+	// P1: keyed by target when enabled
+	n := 0
+	for _, b := range fn.Blocks {
+		for _, in := range b.Instrs {
+			mu, ok := in.(*ssa.MapUpdate)
+			if !ok || !strings.Contains(mu.Map.Type().String(), "epPair") {
+				continue
+			}
+			n++
+			c.Check(guardedBy(mu, enabled, true), "enabled old endpoints are keyed by target", at(c, mu), "", "the old endpoint is recorded as live without the `Enabled` guard (or on its false branch): a free slot is taken for a live server or the reverse")
+			c.Check(strings.HasSuffix(core.Key(mu.Key), ".Target"), "old endpoints are keyed by Target", at(c, mu), "", "key is "+core.Key(mu.Key))
+		}
+	}
+	c.Check(n == 1, "one endpoint map update", c.Pos(fn.Pos()), "", fmt.Sprintf("%d updates of the old-endpoint map", n))
+	// P2/E1: empty
+	ne := 0
+	for _, a := range appendsTo(fn, "empty") {
+		ne++
+		switch {
+		case guardedBy(a, enabled, false):
+			c.Held("a disabled old endpoint is a free slot", at(c, a), "")
+		case guardedBy(a, func(k string) bool { return strings.HasSuffix(core.StripVersion(k), ".cur == nil)") }, true):
+			l := sliceLeaves(c.Env, a.Call.Args[1], 0)
+			c.Check(leavesContain(l, ".old"), "a slot whose endpoint vanished becomes free", at(c, a), "", "the value appended to the free slots is "+leavesList(l))
+		default:
+			c.Violated("free slot list", at(c, a), "a slot is added to the free list neither for a disabled old endpoint nor for a vanished one")
+		}
+	}
+	c.Check(ne == 2, "free slots come from disabled and vanished endpoints", c.Pos(fn.Pos()), "", fmt.Sprintf("%d appends to `empty` (expected 2)", ne))
+	for _, a := range appendsTo(fn, "targets") {
+		c.Check(guardedBy(a, enabled, true), "targets lists the enabled old endpoints", at(c, a), "", "a target is listed without the Enabled guard")
+	}
+	// M: matching loop
+	na := 0
+	for _, a := range appendsTo(fn, "added") {
+		na++
+		c.Check(guardedBy(a, found, false), "an endpoint with an unknown target is `added`", at(c, a), "", "an endpoint is queued as added although its target was found (or unconditionally)")
+	}
+	c.Check(na == 1, "one append to `added`", c.Pos(fn.Pos()), "", fmt.Sprintf("%d", na))
+	// stores to epPair.cur
+	nc := 0
+	for _, b := range fn.Blocks {
+		for _, in := range b.Instrs {
+			st, ok := in.(*ssa.Store)
+			if !ok {
+				continue
+			}
+			o, f := core.FieldOf(st.Addr)
+			if strings.HasSuffix(o, "haproxy.epPair") && f == "cur" {
+				nc++
+				k := core.Key(st.Val)
+				switch {
+				case guardedBy(st, found, true):
+					c.Check(strings.Contains(k, "cur.Endpoints["), "a known target keeps its server", at(c, st), "", "pair.cur receives "+k)
+				default:
+					g1 := guardedBy(st, func(k string) bool { return strings.HasSuffix(core.StripVersion(k), ".cur == nil)") }, true)
+					g2 := guardedBy(st, has("builtin:len(", ") > 0)"), true)
+					c.Check(g1 && g2 && strings.HasSuffix(k, "[0]"), "a vanished target is refilled with the first added endpoint, only if one is left", at(c, st), "", fmt.Sprintf("pair.cur = %s under cur==nil:%v len(added)>0:%v", k, g1, g2))
+					// and added is advanced in the same block
+					adv := false
+					for _, x := range st.Block().Instrs {
+						if sl, ok := x.(*ssa.Slice); ok && core.Key(sl.Low) == "1" {
+							adv = true
+						}
+					}
+					c.Check(adv, "the refilled endpoint leaves `added`", at(c, st), "", "no `added = added[1:]` next to the refill: the endpoint is sent to two slots")
+				}
+			}
+		}
+	}
+	c.Check(nc == 2, "pair.cur assignments", c.Pos(fn.Pos()), "", fmt.Sprintf("%d (expected: match and refill)", nc))
+	// names
+	nn := 0
+	for _, st := range fieldStores(fn, false, "haproxy/types.Endpoint", "Name") {
+		nn++
+		k := core.Key(st.Val)
+		role := "added endpoint"
+		switch {
+		case guardedBy(st, found, true):
+			role = "matched target"
+		case guardedBy(st, func(k string) bool { return strings.HasSuffix(core.StripVersion(k), ".cur == nil)") }, true):
+			role = "refilled slot"
+		case strings.Contains(core.Key(st.Addr), "AddEmptyEndpoint("):
+			role = "carried-over free slot"
+		}
+		c.Check(strings.HasSuffix(k, ".old.Name") || strings.Contains(k, "[") && strings.HasSuffix(k, ".Name"), "a reused slot keeps its server name: "+role, at(c, st), k, "the endpoint is named `"+k+"`, not after the slot it occupies: the commands and the written file address different servers")
+	}
+	c.Check(nn == 4, "server names follow the slots", c.Pos(fn.Pos()), "", fmt.Sprintf("%d name assignments (expected 4: match, refill, added, leftover)", nn))
+	// leftover loop starts at len(added)
+	okLeft := false
+	for _, s := range core.CallsNamed(fn, false, "(*haproxy/types.Backend).AddEmptyEndpoint") {
+		l := core.InnermostLoop(fn, s.Instr.Block())
+		if l == nil {
+			continue
+		}
+		for _, in := range l.Header.Instrs {
+			if ph, ok := in.(*ssa.Phi); ok && ph.Comment == "i" {
+				for i, p := range l.Header.Preds {
+					if !l.Blocks[p] && strings.HasPrefix(core.Key(ph.Edges[i]), "builtin:len(") && !strings.Contains(core.Key(ph.Edges[i]), "Endpoints") {
+						okLeft = true
+					}
+				}
+			}
+		}
+	}
+	c.Check(okLeft, "unused free slots are carried over", c.Pos(fn.Pos()), "", "no loop from len(added) that re-adds the unused free slots to the new backend: the new model has fewer servers than the running process")
+}
+
+func init() {
+	addRule("C02", &core.Rule{ID: "C02.cert-update", Floor: 5, Run: certUpdate,
+		Doc: "execUpdateCert reports success only when the certificate file was read, the socket accepted the batch and the answer to `commit ssl cert` (the second command) is a success; each of the three failures returns false."})
+}
+
+func certUpdate(c *core.Ctx) {
+	fn := c.Fn("haproxy", "dynUpdater.execUpdateCert")
+	if fn == nil {
+		return
+	}
+	readErr := has("readFile", "#1 != nil)")
+	cmdErr := has("execCommand(", "#1 != nil)")
+	resp := has("cmdResponseOK(")
+	f1, f2, f3, nTrue := false, false, false, 0
+	for _, r := range core.Returns(fn) {
+		v := core.Results(r)[0]
+		switch {
+		case core.IsConstBool(v, false):
+			if guardedBy(r, readErr, true) {
+				f1 = true
+			} else if guardedBy(r, cmdErr, true) {
+				f2 = true
+			} else if guardedBy(r, resp, false) {
+				f3 = true
+			} else {
+				c.Violated("execUpdateCert failure exits", at(c, r), "a `return false` under none of the three reviewed failures")
+			}
+		case core.IsConstBool(v, true):
+			nTrue++
+			ok := guardedBy(r, readErr, false) && guardedBy(r, cmdErr, false) && guardedBy(r, resp, true)
+			c.Check(ok, "execUpdateCert succeeds only after read, send and commit succeeded", at(c, r), "", "`return true` is reachable without passing the success branch of all three checks")
+		default:
+			c.Violated("execUpdateCert verdict", at(c, r), "returns "+core.Key(v))
+		}
+	}
+	c.Check(f1, "execUpdateCert fails when the file cannot be read", c.Pos(fn.Pos()), "", "missing")
+	c.Check(f2, "execUpdateCert fails on a socket error", c.Pos(fn.Pos()), "", "missing")
+	c.Check(f3, "execUpdateCert fails when the commit is not acknowledged", c.Pos(fn.Pos()), "", "missing")
+	c.Check(nTrue == 1, "execUpdateCert has one success exit", c.Pos(fn.Pos()), "", fmt.Sprint(nTrue))
+	for _, s := range core.Calls(fn, false) {
+		if strings.HasSuffix(core.CalleeName(s.Common()), ".cmdResponseOK") {
+			c.Check(core.IsConstString(s.Common().Args[0], "commit ssl cert") && strings.HasSuffix(core.Key(s.Common().Args[1]), "[1]"), "execUpdateCert validates the answer of the commit command", at(c, s.Instr), "", "validated: "+core.Key(s.Common().Args[0])+" / "+core.Key(s.Common().Args[1]))
+		}
+	}
+}
+
+func init() {
+	doc := "Structure of the slot padding in alignSlots (the arithmetic itself is not decided): only dynamic backends are padded (every AddEmptyEndpoint is on the DynUpdate branch); the free-slot count increments exactly for empty endpoints; the min-free-slots loop runs from the counted free slots up to MinFreeSlots; the `one whole block` special case is taken exactly when MinFreeSlots == 0 and the backend has no endpoint; the block size has a floor of 1."
+	addRule("C11", &core.Rule{ID: "C11.align-structure", Floor: 6, Run: alignStructure, Doc: doc})
+	addRule("C02", &core.Rule{ID: "C02.align-structure", Floor: 6, Run: alignStructure, Doc: doc})
+}
+
+func alignStructure(c *core.Ctx) {
+	fn := c.Fn("haproxy", "dynUpdater.alignSlots")
+	if fn == nil {
+		return
+	}
+	dyn := has(".Dynamic.DynUpdate")
+	n := 0
+	for _, s := range core.CallsNamed(fn, false, "(*haproxy/types.Backend).AddEmptyEndpoint") {
+		n++
+		c.Check(guardedBy(s.Instr, dyn, true), "only dynamic backends are padded: "+loopRole(fn, s.Instr), at(c, s.Instr), "", "an empty slot is added outside the DynUpdate branch: dynamic backends get no spare slot (every scale-up reloads) or static ones are padded")
+	}
+	c.Check(n >= 2, "alignSlots padding sites", c.Pos(fn.Pos()), "", fmt.Sprint(n))
+	// free-slot counter
+	okCount := false
+	for _, b := range fn.Blocks {
+		for _, in := range b.Instrs {
+			bo, ok := in.(*ssa.BinOp)
+			if !ok || bo.Op.String() != "+" || core.Key(bo.Y) != "1" {
+				continue
+			}
+			ph, isPhi := bo.X.(*ssa.Phi)
+			if !isPhi || ph.Comment != "totalFreeSlots" {
+				continue
+			}
+			okCount = guardedBy(bo, has("Endpoint).IsEmpty("), true)
+			c.Check(okCount, "free slots are the empty endpoints", at(c, bo), "", "totalFreeSlots is incremented outside the IsEmpty branch: occupied slots are counted as free (no padding) or free ones as occupied")
+		}
+	}
+	if !okCount {
+		c.Check(false, "free slots are counted", c.Pos(fn.Pos()), "", "no `totalFreeSlots++` under IsEmpty()")
+	}
+	// min-free-slots loop: i from totalFreeSlots while i < MinFreeSlots
+	okMin := false
+	for _, l := range core.Loops(fn) {
+		ifi, ok := l.Header.Instrs[len(l.Header.Instrs)-1].(*ssa.If)
+		if !ok {
+			continue
+		}
+		bo, ok := ifi.Cond.(*ssa.BinOp)
+		if !ok || bo.Op.String() != "<" || !strings.HasSuffix(core.Key(bo.Y), ".Dynamic.MinFreeSlots") {
+			continue
+		}
+		ph, ok := bo.X.(*ssa.Phi)
+		if !ok {
+			continue
+		}
+		fromCount := false
+		for i, p := range l.Header.Preds {
+			if !l.Blocks[p] {
+				if e, isPhi := ph.Edges[i].(*ssa.Phi); isPhi && e.Comment == "totalFreeSlots" {
+					fromCount = true
+				}
+			}
+		}
+		bodyOnTrue := l.Blocks[l.Header.Succs[0]] && l.Header.Succs[0] != l.Header
+		okMin = fromCount && bodyOnTrue
+		c.Check(okMin, "the min-free-slots loop tops the free slots up to MinFreeSlots", at(c, ifi), "", fmt.Sprintf("loop `%s`: starts at the free-slot count: %v, body on the true branch: %v", core.Key(bo), fromCount, bodyOnTrue))
+	}
+	if !okMin {
+		c.Check(false, "min-free-slots loop", c.Pos(fn.Pos()), "", "no loop `for i := totalFreeSlots; i < minFreeSlots; i++`")
+	}
+	// special case and block-size floor: conditions of the phi edges
+	for _, b := range fn.Blocks {
+		for _, in := range b.Instrs {
+			ph, ok := in.(*ssa.Phi)
+			if !ok {
+				continue
+			}
+			switch ph.Comment {
+			case "newFreeSlots":
+				if core.InnermostLoop(fn, b) != nil && core.InnermostLoop(fn, b).Header == b {
+					continue
+				}
+				for i, e := range ph.Edges {
+					if ep, isPhi := e.(*ssa.Phi); isPhi && ep.Comment == "blockSize" {
+						p := b.Preds[i]
+						g := core.ControllingEdges(p)
+						okSpecial := len(g) >= 2 && false
+						var ks []string
+						for _, x := range g {
+							if x.Branch {
+								ks = append(ks, core.Key(x.If.Cond))
+							}
+						}
+						joined := strings.Join(ks, " && ")
+						okSpecial = strings.Contains(joined, ".Dynamic.MinFreeSlots == 0)") && strings.Contains(joined, ".Endpoints) == 0)")
+						c.Check(okSpecial, "a whole block is added exactly for an empty backend without min-free-slots", at(c, ph), joined, "the special case `newFreeSlots = blockSize` is taken under `"+joined+"`, reviewed: MinFreeSlots == 0 && len(Endpoints) == 0")
+					}
+				}
+			case "blockSize":
+				for i, e := range ph.Edges {
+					if core.Key(e) == "1" {
+						p := b.Preds[i]
+						ok := false
+						for _, x := range core.ControllingEdges(p) {
+							if strings.HasSuffix(core.Key(x.If.Cond), ".Dynamic.BlockSize < 1)") && x.Branch {
+								ok = true
+							}
+						}
+						c.Check(ok, "block size has a floor of 1", at(c, ph), "", "the constant 1 is chosen outside `blockSize < 1`")
+					}
+				}
+			}
+		}
+	}
+}
